@@ -278,7 +278,12 @@ def counter_rule(ctx, col):
         for n in ast.walk(ix.value):
             if isinstance(n, ast.ListComp) and isinstance(n.elt, ast.Subscript):
                 lc = n
-    if lc is None:
+    if lc is None and ix is not None and id_map in names_in(ix.value):
+        col.bad(R, q, d.loc(ix), "row index = position of the old id stored in each new slot "
+                "(ids are never used as positions)",
+                f"`{norm_src(ix.value)}` uses the old ids themselves as row positions (only right when "
+                f"ids are 0..n-1 in file order)", stmt="indices")
+    elif lc is None:
         col.unresolved(R, q, d.loc(ix) if ix is not None else d.loc(), "row index", "not a list comprehension of lookups",
                        stmt="indices")
     else:
